@@ -36,6 +36,10 @@ type node struct {
 	data []byte
 	perm fs.FileMode
 	fifo bool // a named pipe / /dev/fd entry: stat reports size 0 and ModeNamedPipe, reads deliver the bytes
+	// statSize >= 0: a regular file of a synthetic file system (procfs, sysfs, some FUSE mounts)
+	// whose stat size says nothing about its content (typically 0 or one page)
+	statSize int64
+	statZero bool
 }
 
 // Fault kinds of the disk.
@@ -95,6 +99,13 @@ func (d *Disk) Remove(p string) { delete(d.nodes, clean(p)) }
 func (d *Disk) PutPipe(p string, data []byte) {
 	d.Put(p, data)
 	d.nodes[clean(p)].fifo = true
+}
+
+// PutSynthetic stores content as a regular file whose stat size is unrelated to it (procfs-like).
+func (d *Disk) PutSynthetic(p string, data []byte, statSize int64) {
+	d.Put(p, data)
+	n := d.nodes[clean(p)]
+	n.statSize, n.statZero = statSize, statSize == 0
 }
 
 // Mkdir creates one directory (parent must exist).
@@ -192,6 +203,9 @@ func (i SimInfo) Size() int64 {
 	if i.n.fifo {
 		return 0 // stat(2) on a pipe
 	}
+	if i.n.statSize > 0 || i.n.statZero {
+		return i.n.statSize
+	}
 	return int64(len(i.n.data))
 }
 func (i SimInfo) Mode() fs.FileMode {
@@ -234,8 +248,18 @@ type SimFile struct {
 	appendMode bool
 }
 
+// OpenLimit bounds the files one run may open (the largest generated project has a dozen):
+// a tree that loads modules without end — an import cycle it no longer recognises — ends in a
+// recoverable panic here long before its recursion has grown a dangerous stack.
+const OpenLimit = 3000
+
+const OpenPanic = "zsim: unbounded loading: more than 3000 files opened in one run"
+
 func (d *Disk) Open(p string) (*SimFile, error) {
 	d.Ops["open"]++
+	if d.Ops["open"] > OpenLimit {
+		panic(OpenPanic)
+	}
 	cp := clean(p)
 	n, ok := d.nodes[cp]
 	if !ok {
